@@ -179,3 +179,32 @@ Theorem C19_former_F6 : exists c r,
   request c = None /\ error r = Some EBodyTooLarge /\ completed r = true.
 Proof. exact CS.ex_former_F6. Qed.
 Print Assumptions C19_former_F6.
+
+(* ---------------------------------------------------------------------------------------------
+   Placement of the interim response at BYTE level (Model/ChanOut.v: send_continue appends the 25
+   bytes to self.outbufs[-1] and flushes; write_soon / _flush_some over the buffer model of C17;
+   proofs in Proof/ChanOut.v).  For every configuration, every history before and after the
+   send_continue() call (responses written as bytes or handed over as file-wrapper buffers, partial
+   sends, socket errors), the bytes on the socket followed by the bytes still queued are: everything
+   written before, then "HTTP/1.1 100 Continue\r\n\r\n" once, then everything written after -- the
+   interim response is never inside another response, also when the previous response is a file
+   buffer that is still queued (C19_continue_behind_file). *)
+From WV Require Model.Buffers Model.ChanOut Proof.ChanOut.
+Module CO := WV.Model.ChanOut.
+Module COP := WV.Proof.ChanOut.
+
+Theorem C19_continue_bytes_in_order : forall (c : CO.cfg) (ps1 ps2 : list CO.cop) (ans : list CO.answer),
+  COP.cfg_ok c -> Forall COP.cop_ok ps1 -> Forall COP.cop_ok ps2 ->
+  let r := CO.crun c CO.chan_new (ps1 ++ CO.CContinue ans :: ps2) in
+  snd r ++ COP.cabs (fst r) =
+    concat (map CO.written_by ps1) ++ CO.continue_payload ++ concat (map CO.written_by ps2).
+Proof. exact COP.continue_in_order. Qed.
+Print Assumptions C19_continue_bytes_in_order.
+
+Theorem C19_continue_behind_file :
+  let r := CO.crun COP.ex_cfg CO.chan_new
+             [CO.CWrite (CO.WBytes [1;2]%N) []; CO.CWrite (CO.WFile COP.ex_file) [];
+              CO.CContinue (CO.Sent 1 :: repeat (CO.Sent 100) 20)] in
+  snd r = [1;2;8;7;6;5]%N ++ CO.continue_payload /\ COP.cabs (fst r) = [].
+Proof. exact COP.ex_continue_behind_file. Qed.
+Print Assumptions C19_continue_behind_file.
